@@ -318,6 +318,85 @@ theorem accepted_tables_agree {cf : CF} {s : Snap} {t t' : Table} (h : checkTabl
   have := hmin' T hT1 hT2
   omega
 
+/-! ### `Extractor::extract` at the level of costs (model `Extract.extractTree`) -/
+
+mutual
+def toX : XT → XTree
+  | .mk c n kids => .mk c n (toXs kids)
+def toXs : List XT → List XTree
+  | [] => []
+  | T :: Ts => toX T :: toXs Ts
+end
+
+mutual
+/-- **extraction succeeds and returns a represented term of exactly the recorded cost**: for every accepted table (the one
+of `Extractor::new` in particular), every class with an entry `k` and every fuel above `k` — the recursion is well founded
+because a node costs strictly more than each child -/
+theorem extract_spec {cf : CF} {s : Snap} {t : Table} (h : checkTable cf s t = true) :
+    ∀ (fuel k c : Nat), t.get c = some k → k < fuel →
+      ∃ T, extractTree cf s t fuel c = some T ∧ wfTree s (toX T) = true ∧ (toX T).root = c ∧ treeCost cf s (toX T) = k
+  | 0, k, _, _, hlt => by omega
+  | fuel + 1, k, c, hg, hlt => by
+    obtain ⟨cl, n, e, ks, hcl, halive, hn, hkc, hcost⟩ := attained_of_check h hg
+    -- the first e-node that attains the entry
+    let P : Node × SlotMap → Bool := fun e => (kidCosts t e.1).map (nodeCost cf e.1.v) == some k
+    have hex : ∃ x, x ∈ cl.nodes ∧ P x = true := ⟨e, List.mem_of_getElem? hn, by simp [P, hkc, hcost]⟩
+    have hlt' : cl.nodes.findIdx P < cl.nodes.length := List.findIdx_lt_length_of_exists hex
+    have hP : P cl.nodes[cl.nodes.findIdx P] = true := List.findIdx_getElem
+    have hbest : bestIdx cf s t c = some (cl.nodes.findIdx P) := by
+      unfold bestIdx; simp only [hcl, hg]; simp [P, hlt']
+    generalize hidx : cl.nodes.findIdx P = i at *
+    generalize he' : cl.nodes[i] = e' at *
+    have hnode : (s.cls c).bind (fun cl => cl.nodes[i]?) = some e' := by
+      simp [hcl, ← he', List.getElem?_eq_getElem hlt']
+    have hk' : ∃ ks', kidCosts t e'.1 = some ks' ∧ nodeCost cf e'.1.v ks' = k := by
+      simp only [P, beq_iff_eq, Option.map_eq_some_iff] at hP
+      exact hP
+    obtain ⟨ks', hkc', hcost'⟩ := hk'
+    have hkids := extractKids_spec h fuel ((Node.appOcc e'.1).map (·.id)) ks'
+      (by unfold kidCosts at hkc'; rw [List.mapM_map]; exact hkc')
+      (by
+        intro i k' hi hk'
+        have hmem : k' ∈ ks' := by
+          unfold kidCosts at hkc'
+          obtain ⟨a, ha, rfl⟩ := List.mem_map.mp hi
+          exact mem_of_mapM_get (Node.appOcc e'.1) ks' hkc' a ha k' hk'
+        have := nodeCost_gt_child cf e'.1.v ks' k' hmem (by unfold opWeight; split <;> omega)
+        omega)
+    obtain ⟨Ts, hTs1, hTs2, hTs3⟩ := hkids
+    refine ⟨.mk c i Ts, ?_, ?_, rfl, ?_⟩
+    · simp only [extractTree, hbest, hnode, hTs1, Option.map_some]
+    · simp only [toX, wfTree, hcl, halive, Bool.true_and]
+      have : cl.nodes[i]? = some e' := by rw [← he']; exact List.getElem?_eq_getElem hlt'
+      simp only [this, hTs2]
+    · have : cl.nodes[i]? = some e' := by rw [← he']; exact List.getElem?_eq_getElem hlt'
+      simp [toX, treeCost, hcl, this, hTs3, hcost']
+theorem extractKids_spec {cf : CF} {s : Snap} {t : Table} (h : checkTable cf s t = true) :
+    ∀ (fuel : Nat) (ids : List Nat) (ks : List Nat), (ids.mapM fun i => t.get i) = some ks →
+      (∀ i k', i ∈ ids → t.get i = some k' → k' < fuel) →
+      ∃ Ts, extractKids cf s t fuel ids = some Ts ∧ wfKids s ids (toXs Ts) = true ∧ kidsCost cf s (toXs Ts) = ks
+  | _, [], ks, hm, _ => by
+    simp at hm; subst hm
+    exact ⟨[], by simp [extractKids], by simp [toXs, wfKids], by simp [toXs, kidsCost]⟩
+  | fuel, i :: is, ks, hm, hall => by
+    simp only [List.mapM_cons, Option.bind_eq_bind, Option.bind_eq_some_iff, Option.pure_def, Option.some.injEq] at hm
+    obtain ⟨k0, hk0, ks0, hks0, rfl⟩ := hm
+    obtain ⟨T, hT1, hT2, hT3, hT4⟩ := extract_spec h fuel k0 i hk0 (hall i k0 (by simp) hk0)
+    obtain ⟨Ts, hTs1, hTs2, hTs3⟩ := extractKids_spec h fuel is ks0 hks0 (fun j k' hj hk' => hall j k' (by simp [hj]) hk')
+    refine ⟨T :: Ts, ?_, ?_, ?_⟩
+    · simp [extractKids, hT1, hTs1]
+    · simp [toXs, wfKids, hT2, hT3, hTs2]
+    · simp [toXs, kidsCost, hT4, hTs3]
+end
+
+/-- `Extractor::new` followed by `extract`: on every state with distinct class ids, for every class the work list gave an
+entry, extraction returns a represented term whose cost is that entry — which is the minimum (`extractor_cost_is_min`) -/
+theorem extractor_extract_spec (cf : CF) (s : Snap) (hd : DistinctIds s) {c k : Nat}
+    (hg : (dijkstra cf s).get c = some k) :
+    ∃ T, extractTree cf s (dijkstra cf s) (k + 1) c = some T ∧ wfTree s (toX T) = true ∧ (toX T).root = c ∧
+      treeCost cf s (toX T) = k :=
+  extract_spec (dijkstra_accepted cf s hd) (k + 1) k c hg (by omega)
+
 /-- non-vacuity: the demo state has distinct class ids -/
 example : DistinctIds demo := by
   unfold DistinctIds demo
